@@ -257,6 +257,9 @@ def run_solver(d, cfg, fault=None, num_iter=None):
             out = w(i1, i2)
         cap["warned"] = any("abruptly stopped" in str(x.message) for x in rec)
         cap["w"], cap["out"], cap["opts"] = w, out, opts
+        # magnitude of the integrated masses: the source f = M (m2 - m1) carries a rounding error of eps times this
+        cap["mass_scale"] = float(max(np.abs(w.mass_matrix_cells @ np.ravel(np.abs(i1.img), "F")).max(),
+                                      np.abs(w.mass_matrix_cells @ np.ravel(np.abs(i2.img), "F")).max()))
         return cap
 
     import contextlib
@@ -326,8 +329,13 @@ def check_run(ctx, d, cfg, cap, fault, num_iter, label):
     # (1) mass balance of the returned flux
     err, scale, u, f = mass_balance(cap)
     iterative = cfg.solver in ("amg", "cg")
-    tol = 1e4 * EPS * max(scale, 1e-300) * max(nf + nc, 1) + (1e-8 * float(np.linalg.norm(f)) if iterative else 0.0)
-    ctx.cov["max_balance_err_over_tol"] = max(ctx.cov.get("max_balance_err_over_tol", 0.0), err / tol)
+    # direct back-ends: backward-stable solve of a system whose unknowns and data have magnitude `scale`
+    # (|D||u| + |f|, plus the masses the source is the difference of); iterative: configured rtol 1e-10 x ||f||, margin 100
+    tol = 1e4 * EPS * max(scale + cap.get("mass_scale", 0.0), 1e-300) * max(nf + nc, 1) + (1e-8 * float(np.linalg.norm(f)) if iterative else 0.0)
+    if err <= tol:
+        ctx.cov["max_balance_err_over_tol"] = max(ctx.cov.get("max_balance_err_over_tol", 0.0), err / tol)
+    else:
+        ctx.cov["max_balance_err_of_failing_runs"] = max(ctx.cov.get("max_balance_err_of_failing_runs", 0.0), err)
     colsum = float(np.abs(np.asarray(w.div.sum(axis=0))).max()) if nf else 0.0
     ctx.cov["max_abs_colsum_D"] = max(ctx.cov.get("max_abs_colsum_D", 0.0), colsum)
     if not err <= tol:
